@@ -39,7 +39,7 @@ Print Assumptions target_bytes_refuted_in_pinned_code.
 (** ---- stream level (serve_stream = the whole connection delivered in one piece; by C18's theorems
     every other way of delivering it gives the same requests) ---- *)
 From TwLib Require Import HttpRender.
-From C19 Require Import ReqLine Pipeline.
+From C19 Require Import ReqLine HeadersBlock Pipeline.
 
 (** _parseRequestLine (repaired) accepts exactly the RFC 9112 request lines: method token, SP, a
     non-empty target of visible ASCII, SP, HTTP/1.0 or HTTP/1.1 -- nothing else *)
@@ -49,11 +49,14 @@ Theorem request_line_accepts_exactly_rfc : forall line m t v : bytes,
 Proof. exact request_line_exact. Qed.
 Print Assumptions request_line_accepts_exactly_rfc.
 
-(** framing agrees with the RFC on well-formed streams: any pipeline of requests written as RFC 9112
-    prescribes (canonical field lines with any RFC field values, body framed by Content-Length or by
-    the chunked coding with any extensions / trailers, or absent; within the server's header limits),
-    followed by anything, is parsed into exactly those requests with exactly those bodies, and parsing
-    resumes exactly at the first byte after the last body *)
+(** framing agrees with the RFC on well-formed streams.  [wf_wreq]: an RFC request line; any number of
+    fields "token ':' octets" each optionally continued on obs-fold lines (1*(SP/HTAB) text), any OWS
+    around the values; the field values as the RFC reads them (obs-fold -> SP, OWS trimmed: [f_value])
+    determine the framing by RFC 9112 6.3 ([rfc_request_framing] = Some ..); the body is absent / has the
+    Content-Length / is chunked with any extensions and trailers; within the server's limits.  Any
+    pipeline of such requests followed by ANYTHING is parsed into exactly those requests (field names
+    lower-cased, values = [f_value]) with exactly those bodies, and parsing resumes at the first byte
+    after the last body *)
 Theorem framing_agrees_with_rfc : forall (qs : list wreq) (tail : bytes),
   Forall wf_wreq qs -> forallb keeps_alive qs = true ->
   serve_stream true (flat_map render qs ++ tail) =
@@ -76,12 +79,40 @@ Theorem nothing_processed_after_last_request : forall (qs : list wreq) (q : wreq
 Proof. exact pipeline_close. Qed.
 Print Assumptions nothing_processed_after_last_request.
 
-(** a request line that is not an RFC request line is answered with 400 and nothing after it is
-    processed, the requests before it having been delivered *)
-Theorem invalid_request_line_is_400_and_stops : forall (qs : list wreq) (l junk : bytes),
-  Forall wf_wreq qs -> forallb keeps_alive qs = true ->
-  find_crlf l = None -> l <> [] -> (N.of_nat (length l) <= total_headers_size)%N ->
+(** the first malformed request.  [malformed_head bad]: [bad] starts with (a) a non-empty line that is
+    not an RFC request line, or (b) an RFC request line, any well-formed fields, then a line that is not
+    an RFC field line (no colon, a name that is not a token, NUL in the value) followed by any further
+    line that is not a continuation, or (c) a complete head of well-formed fields whose Content-Length /
+    Transfer-Encoding values RFC 9112 6.3 refuses (both present, repeated, non-numeric, unsupported
+    coding; 'identity' excepted, finding F4b).  Every stream consisting of i well-formed keep-alive
+    requests followed by such a head -- and then anything at all -- delivers exactly those i requests,
+    is answered with 400, and nothing after the malformed head is processed. *)
+Theorem first_malformed_request_is_400_and_stops : forall (qs : list wreq) (bad : bytes),
+  Forall wf_wreq qs -> forallb keeps_alive qs = true -> malformed_head bad ->
+  serve_stream true (flat_map render qs ++ bad) = (map parsed qs, EBad).
+Proof. exact first_malformed. Qed.
+Print Assumptions first_malformed_request_is_400_and_stops.
+
+(** the three cases separately, for a malformed head at the very start *)
+Theorem invalid_request_line_is_400 : forall (l junk : bytes), find_crlf l = None -> l <> [] ->
   (forall m t v, l = request_line m t v -> rfc_request_line_fields m t v = false) ->
-  serve_stream true (flat_map render qs ++ l ++ CRLFo ++ junk) = (map parsed qs, EBad).
-Proof. exact bad_request_line. Qed.
-Print Assumptions invalid_request_line_is_400_and_stops.
+  serve_stream true (l ++ CRLFo ++ junk) = ([], EBad).
+Proof. exact bad_line_first. Qed.
+Print Assumptions invalid_request_line_is_400.
+
+Theorem invalid_field_line_is_400 : forall (m t v : bytes) (fs : list field) x (r nl junk : bytes),
+  rfc_request_line_fields m t v = true -> forallb wf_field fs = true ->
+  find_crlf (x :: r) = None -> is_ows x = false -> rfc_field_line (x :: r) = false ->
+  find_crlf nl = None -> match nl with [] => True | y :: _ => is_ows y = false end ->
+  serve_stream true (request_line m t v ++ CRLFo ++ flat_map field_lines fs ++ (x :: r) ++ CRLFo ++ nl ++ CRLFo ++ junk)
+  = ([], EBad).
+Proof. exact bad_field_first. Qed.
+Print Assumptions invalid_field_line_is_400.
+
+Theorem conflicting_framing_is_400 : forall (m t v : bytes) (fs : list field) (junk : bytes),
+  rfc_request_line_fields m t v = true -> forallb wf_field fs = true ->
+  no_identity (vals fs) = true -> cl_short (vals fs) = true ->
+  rfc_request_framing (cls_of (vals fs)) (tes_of (vals fs)) = None ->
+  serve_stream true (render_head m t v fs ++ junk) = ([], EBad).
+Proof. exact bad_framing_first. Qed.
+Print Assumptions conflicting_framing_is_400.
